@@ -8,12 +8,13 @@ Open Scope N_scope.
 Lemma level_index_in_range k l : (0 <= pool_index k l < pool_map_len)%Z.
 Proof.
   unfold pool_index, pool_map_len, normalizeCompressLevel, normalizeBrotliCompressLevel, normalizeZstdCompressLevel,
-    CompressDefaultCompression, CompressBrotliDefaultCompression, CompressZstdSpeedNotSet, CompressZstdBestCompression, CompressZstdDefault.
+    CompressDefaultCompression, CompressBrotliDefaultCompression.
   destruct k.
   - destruct ((l <? -2) || (l >? 9))%Z eqn:E; lia.
   - destruct ((l <? -2) || (l >? 9))%Z eqn:E; lia.
   - destruct ((l <? 0) || (l >? 11))%Z eqn:E; lia.
-  - destruct ((l <=? 0) || (l >? 4))%Z eqn:E; lia.
+  - change CompressZstdSpeedNotSet with 0%Z. change CompressZstdBestCompression with 4%Z. change CompressZstdDefault with 2%Z.
+    destruct ((l <=? 0) || (l >? 4))%Z eqn:E; lia.
 Qed.
 
 Lemma tok_name k : tok k = coding_name k.
